@@ -177,6 +177,86 @@ def modelIntegrate2 (S : Sys T X) (aliased : Integrator → Bool) (copyOnRead : 
     .ok (integrateFuncJacL S { aliased := aliased, copyOnRead := copyOnRead, fullOutput := true,
                                includeOrigin := true, method := method } x0 t0' rest)
 
+/-! ### the instance between calls: what the model-level entry points read and write
+
+`DeterministicOde` keeps `_x0`, `_t0` (assigned through `initial_state`, `initial_time`, `initial_values`) and
+`_odeTime`, `_odeSolution` (written by every solve).  A session is a list of such operations on one instance;
+`runOps` threads the instance through it and collects what the solves return, in order.  `Props/C02.lean`
+proves that the outputs are those of the single-call functions above applied to the values assigned last
+(`session_is_pure`), whatever `_odeTime` / `_odeSolution` hold. -/
+
+structure Inst (T X : Type) where
+  x0 : X
+  t0 : T
+  odeTime : Option (List T) := none        -- self._odeTime
+  odeSolution : Option (List X) := none    -- self._odeSolution
+
+/-- what a caller does to a configured instance, as far as C02 is concerned -/
+inductive SOp (T X : Type)
+  | setX0 (x : X)                                          -- model.initial_state = x
+  | setT0 (t : T)                                          -- model.initial_time = t
+  | setBoth (x : X) (t : T)                                -- model.initial_values = (x, t)
+  | integrate (t : TimeArg T)                              -- model.integrate(t [, full_output])
+  | solveDeterm (t : Option (TimeArg T))                   -- model.solve_determ(t)
+  | integrate2 (method : Option String) (t : TimeArg T)    -- model.integrate2(t, full_output, method)
+
+/-- what stays fixed during a session: the flow and the behaviour of the integrators -/
+structure SEnv (T X : Type) where
+  S : Sys T X
+  aliased : Integrator → Bool
+  copyOnRead : Bool
+
+/-- `integrate(t)`: `_setIntegrateTime` (raises before anything is stored) then `_integrate` -/
+def Inst.integrate (E : SEnv T X) (s : Inst T X) (t : TimeArg T) : Inst T X × Except IErr (List X) :=
+  match setIntegrateTime s.t0 t with
+  | .error e => (s, .error e)
+  | .ok times =>
+    let rows := odeintRows E.S s.x0 times
+    ({ s with odeTime := some times, odeSolution := some rows }, .ok rows)
+
+/-- one operation: the new instance and what the call returned (nothing for an assignment) -/
+def Inst.step (E : SEnv T X) (s : Inst T X) : SOp T X → Inst T X × Option (Except IErr (List X))
+  | .setX0 x => ({ s with x0 := x }, none)
+  | .setT0 t => ({ s with t0 := t }, none)
+  | .setBoth x t => ({ s with x0 := x, t0 := t }, none)
+  | .integrate t => let r := s.integrate E t; (r.1, some r.2)
+  | .solveDeterm none => (s, some (.error .inputError))
+  | .solveDeterm (some t) => let r := s.integrate E t; (r.1, some r.2)
+  | .integrate2 m t =>
+    match setIntegrateTime s.t0 t with
+    | .error e => (s, some (.error e))
+    | .ok times =>
+      match modelIntegrate2 E.S E.aliased E.copyOnRead m s.x0 s.t0 t with
+      | .error e => ({ s with odeTime := some times }, some (.error e))
+      | .ok r => ({ s with odeTime := some times, odeSolution := some r.rows }, some (.ok r.rows))
+
+/-- a session: the final instance and everything the solves returned, in order -/
+def runOps (E : SEnv T X) : Inst T X → List (SOp T X) → Inst T X × List (Except IErr (List X))
+  | s, [] => (s, [])
+  | s, op :: ops =>
+    let r := s.step E op
+    let rest := runOps E r.1 ops
+    (rest.1, r.2.toList ++ rest.2)
+
+/-- the values assigned last -/
+def SOp.assign (cur : X × T) : SOp T X → X × T
+  | .setX0 x => (x, cur.2)
+  | .setT0 t => (cur.1, t)
+  | .setBoth x t => (x, t)
+  | _ => cur
+
+/-- what a solve returns as a function of its own arguments and the values assigned last -/
+def SOp.out (E : SEnv T X) (cur : X × T) : SOp T X → Option (Except IErr (List X))
+  | .integrate t => some (modelIntegrate E.S cur.1 cur.2 t)
+  | .solveDeterm t => some (Pygom.solveDeterm E.S cur.1 cur.2 t)
+  | .integrate2 m t => some ((modelIntegrate2 E.S E.aliased E.copyOnRead m cur.1 cur.2 t).map (·.rows))
+  | _ => none
+
+/-- the session as it should be: every solve is the single-call function of the values assigned last -/
+def pureOutputs (E : SEnv T X) : X × T → List (SOp T X) → List (Except IErr (List X))
+  | _, [] => []
+  | cur, op :: ops => (op.out E cur).toList ++ pureOutputs E (op.assign cur) ops
+
 /-! ### executable instance: exact flow of `x' = c` on rationals -/
 
 /-- `x + c·(t − t0)` componentwise (components of `x` beyond `c` do not move) -/
